@@ -59,6 +59,14 @@ fn alphabet(thorough: bool) -> Vec<A> {
             "g",
             vec![Item::Label("c".into()), Item::Ins(Instr::Zero(ZeroOp::Cmc)), Item::Ins(jmp("jnc", "c"))],
         ),
+        // the last instruction of the body is an unconditional jump and a label sits between it and the
+        // closing brace: that label is the implied ret
+        A::Proc(
+            "f",
+            vec![Item::Ins(jmp("jc", "z9")), Item::Ins(Instr::Zero(ZeroOp::Cmc)), Item::Ins(jmp("jmp", "z9")), Item::Label("z9".into())],
+        ),
+        // a body that emits nothing (or a single nop) still returns
+        A::Proc("g", vec![Item::Ins(Instr::Zero(ZeroOp::Nop))]),
         A::Start,
     ];
     if thorough {
@@ -484,7 +492,7 @@ pub fn run(tier: &Tier) -> i32 {
     c.states.fetch_add(st.programs.load(Ordering::Relaxed), Ordering::Relaxed);
     let mut cov = Coverage::default();
     cov.exhaustive = true;
-    cov.rule = format!("all sequences of at most {} items over a {}-item alphabet (stc, clc, cmc, labels a/b, the label start at every position, jmp/jc/jnc/loop to a/b, mov cx, call f/g, hlt, print flags, a macro use, nop, four procedure definitions incl. explicit ret + dead code, nested call and a local loop) that are well formed (in the quick tier the macro use only in sequences below the maximum length; labels and procedures defined once, targets defined, procedures defined before their call); each rendered to source, assembled by the real Preprocessor and run by a replica of the driver loop around the real Interpreter; the complete executed trace, the halt reason and the final registers are compared with a reference interpreter working on the AST. All programs with at most {} items also run through the real CLI binary and its stdout is matched against the reference event list. Plus 6 large programs whose calls, returns, loop bodies, labels and procedures lie at emitted-instruction indices 65534..70000 (an index held in 16 bits wraps there). Diverging programs (reference step horizon 2000) and programs that fall into a procedure are discarded and counted. transitions = executed instructions; states = programs", k, alpha.len(), kcli);
+    cov.rule = format!("all sequences of at most {} items over a {}-item alphabet (stc, clc, cmc, labels a/b, the label start at every position, jmp/jc/jnc/loop to a/b, mov cx, call f/g, hlt, print flags, a macro use, nop, six procedure definitions incl. explicit ret + dead code, nested call, a local loop, a body ending in an unconditional jump to a label at the closing brace, a body that emits nothing) that are well formed (in the quick tier the macro use only in sequences below the maximum length; labels and procedures defined once, targets defined, procedures defined before their call); each rendered to source, assembled by the real Preprocessor and run by a replica of the driver loop around the real Interpreter; the complete executed trace, the halt reason and the final registers are compared with a reference interpreter working on the AST. All programs with at most {} items also run through the real CLI binary and its stdout is matched against the reference event list. Plus 6 large programs whose calls, returns, loop bodies, labels and procedures lie at emitted-instruction indices 65534..70000 (an index held in 16 bits wraps there). Diverging programs (reference step horizon 2000) and programs that fall into a procedure are discarded and counted. transitions = executed instructions; states = programs", k, alpha.len(), kcli);
     cov.bounds = json!({"max_items": k, "alphabet": alpha.len(), "cli_max_items": kcli, "programs": st.programs.load(Ordering::Relaxed), "discarded_diverging": st.diverging.load(Ordering::Relaxed), "discarded_fall_into_procedure": st.ret_empty.load(Ordering::Relaxed), "tier": tier.name()});
     cov.assumptions = common_assumptions();
     cov.assumptions.push("NOP may assemble to zero or one instruction; traces are compared with NOPs removed".into());
